@@ -14,6 +14,7 @@ import (
 )
 
 func main() {
+	core.RaceEnabled = raceEnabled
 	if len(os.Args) < 2 {
 		usage()
 	}
